@@ -831,50 +831,64 @@ func (s scriptedBase) Fetch(context.Context, ocispec.Descriptor) (io.ReadCloser,
 }
 func (s scriptedBase) Exists(context.Context, ocispec.Descriptor) (bool, error) { return true, nil }
 
+var pxBlocked bool
+
 func runPX(id string, c *Case) string {
 	p := c.Pushes[0]
 	d := descOf(p)
-	if _, ok := limitOf(c.Kind); ok && int64(len(streamOf(p.Script))) > p.SZ {
-		// Proxy over a LimitedStorage cache never drains the pipe once Size bytes were
-		// cached: reading the trailing bytes blocks.  Liveness, not C05; skipped.
-		run.Count("px:skipped-limited-trailing")
+	lim, limited := limitOf(c.Kind)
+	trailing := int64(len(streamOf(p.Script))) > p.SZ
+	if pxBlocked && limited && trailing {
+		run.Count("px:skipped-after-blocked")
 		return "-"
 	}
-	cache := hooks.NewMemory()
-	var px *hooks.Proxy
-	if lim, ok := limitOf(c.Kind); ok {
-		px = hooks.NewProxyWithLimit(scriptedBase{p}, cache, lim)
-	} else {
-		px = hooks.NewProxy(scriptedBase{p}, cache)
+	newProxy := func() (*hooks.Proxy, *hooks.Memory) {
+		cache := hooks.NewMemory()
+		if limited {
+			return hooks.NewProxyWithLimit(scriptedBase{p}, cache, lim), cache
+		}
+		return hooks.NewProxy(scriptedBase{p}, cache), cache
 	}
-	// the proxy couples the caller and the cache push through an io.Pipe: guard
-	// against a blocked pipe (liveness is not part of C05; counted, not judged)
+	// the proxy couples the caller and the cache push through an io.Pipe: a watchdog
+	// turns a blocked pipe into a verdict instead of a hung harness
 	type pxres struct {
 		rerr, cerr error
 		fetched    bool
+		all        []byte
+		allErr     error
 	}
+	px, cache := newProxy()
 	ch := make(chan pxres, 1)
 	go func() {
-		rc, err := px.Fetch(ctx, d)
-		if err != nil {
-			ch <- pxres{}
-			return
+		var r pxres
+		if rc, err := px.Fetch(ctx, d); err == nil {
+			r.fetched = true
+			_, r.rerr = io.ReadAll(rc)
+			r.cerr = rc.Close()
 		}
-		_, rerr := io.ReadAll(rc)
-		ch <- pxres{rerr: rerr, cerr: rc.Close(), fetched: true}
+		px2, _ := newProxy()
+		r.all, r.allErr = content.FetchAll(ctx, px2, d)
+		ch <- r
 	}()
-	var rerr, cerr error
+	var r pxres
 	select {
-	case r := <-ch:
-		if !r.fetched {
-			return "-"
-		}
-		rerr, cerr = r.rerr, r.cerr
-	case <-time.After(5 * time.Second):
-		run.Count("px:blocked-pipe")
+	case r = <-ch:
+	case <-time.After(20 * time.Second):
+		pxBlocked = true
+		fail(id, "proxy-blocked", fmt.Sprintf("reading %d bytes for Size %d through the caching proxy (%s) did not return within 20s", len(streamOf(p.Script)), p.SZ, c.Kind), c)
 		return "-"
 	}
 	why := whyBad(p)
+	if r.allErr == nil {
+		if !matches(r.all, p.DG, p.SZ) || why != "" {
+			fail(id, "proxy-fetchall-accepted-bad", "FetchAll through the proxy returned bytes not matching the descriptor", c)
+		} else if trailing {
+			fail(id, "proxy-fetchall-trailing-accepted", "FetchAll through the proxy accepted bytes beyond Size", c)
+		}
+	}
+	if !r.fetched {
+		return "-"
+	}
 	x, _ := cache.Exists(ctx, d)
 	if x {
 		raw, _ := rawFetch(cache, d)
@@ -882,8 +896,8 @@ func runPX(id string, c *Case) string {
 			fail(id, "cache-holds-bad", fmt.Sprintf("cache holds %d bytes for %s size %d (%s)", len(raw), p.DG, p.SZ, why), c)
 		}
 	}
-	if rerr == nil && cerr == nil && !x && why == "" && int64(len(streamOf(p.Script))) == p.SZ {
-		if lim, ok := limitOf(c.Kind); !ok || p.SZ <= lim {
+	if r.rerr == nil && r.cerr == nil && !x && why == "" && !trailing {
+		if !limited || p.SZ <= lim {
 			fail(id, "cache-miss-after-good-read", "good content read through the proxy was not cached", c)
 		}
 	}
